@@ -145,3 +145,16 @@ Definition py_str_int (z : Z) : list Z :=
   | Zpos p => t2_uint_digits (Pos.to_uint p)
   | Zneg p => 45 :: t2_uint_digits (Pos.to_uint p)
   end.
+
+(* l[i].append(x) *)
+Fixpoint t2_update_nth {A} (l : list A) (n : nat) (f : A -> A) : list A :=
+  match l, n with
+  | [], _ => []
+  | y :: r, O => f y :: r
+  | y :: r, S n' => y :: t2_update_nth r n' f
+  end.
+Definition py_append_at {A} (l : list (list A)) (i : Z) (x : A) : res (list (list A)) :=
+  let n := zlen l in
+  let j := if i <? 0 then n + i else i in
+  if (0 <=? j) && (j <? n) then Ok (t2_update_nth l (Z.to_nat j) (fun y => y ++ [x]))
+  else Crash K_IndexError.
